@@ -199,7 +199,12 @@ def op_case(rnd, cid, profile="mixed", ops=None, kinds=None, p=BN128):
         ra = b.operand(ka, malformed and rnd.random() < 0.7)
         if op in ("lshift", "rshift", "pow") and kb == "I":
             # plain shift counts / exponents stay small: `1 << 2**40` would exhaust memory, not test anything
-            rb = b.operand("I", value=rnd.choice([0, 1, 2, 3, cfg["bl"] - 1, cfg["bl"], cfg["bl"] + 1, -1, -2, 40, 300]))
+            e = rnd.choice([0, 1, 2, 3, cfg["bl"] - 1, cfg["bl"], cfg["bl"] + 1, -1, -2, 40, 300])
+            if op == "pow" and ka == "X":
+                # a fixed-point power is e rescaling products of bitlength bits each: the model interpreter needs minutes for 129 of them
+                # at 128 bits; the product exponent x width stays bounded (every branch of the loop is still reached)
+                e = min(e, max(3, 2000 // cfg["bl"]))
+            rb = b.operand("I", value=e)
         else:
             rb = ra if (rnd.random() < 0.05 and ka == kb) else b.operand(kb, malformed and rnd.random() < 0.7)
     rr = b.emit(f"bin {op} r{ra} r{rb}", result_kind(op, ka, kb))
@@ -457,6 +462,12 @@ def guarded_case(rnd, cid, p=BN128, depth=None):
     b = Builder(rnd, cfg)
     depth = depth or rnd.choice([1, 1, 1, 2, 2, 3])
     gvals = [rnd.choice([0, 1]) for _ in range(depth)]
+    tails = depth >= 2 and rnd.random() < 0.6
+    if tails and rnd.random() < 0.5:
+        # the combination in which a stale inner state shows: every enclosing condition true, the region left last not taken
+        gvals = [1] * (depth - 1) + [0]
+        if depth == 3 and rnd.random() < 0.4:
+            gvals = rnd.choice([[1, 0, 1], [1, 0, 0], [1, 1, 0]])
     bad_guard = rnd.random() < 0.05
     pool = [b.operand("L", value=rnd.choice([0, 1, -1, half - 1, half, rnd.randrange(-half, half)])) for _ in range(3)]
     pool.append(b.operand("L", value=rnd.choice([0, 0, 1, 3])))
@@ -503,16 +514,60 @@ def guarded_case(rnd, cid, p=BN128, depth=None):
         else:
             b.emit(f"call assert_range r{a} r{b.int_lit(rnd.randrange(-2, 2))} r{b.int_lit(rnd.randrange(0, 5))}", "N")
             bodyops.append("assert_range")
-    for _ in grs:
+    # code BETWEEN an inner `gleave` and the enclosing one: it runs after an inner region has been left while outer regions are
+    # still active, so the guard, the error mode and LinComb.ONE must be those of the ENCLOSING region again (not of the region just
+    # left, not of the top level).  The instructions are the ones that read that state: assert_nonzero / assert_ne (constraint against
+    # LinComb.ONE), assertions and arithmetic with plain-int operands (`_ensurelc` builds the constant from LinComb.ONE), comparisons.
+    tailops = []
+    for lvl in range(depth - 1, -1, -1):
         b.emit("gleave", "N")
+        if tails and lvl >= 1:
+            for _ in range(rnd.randrange(1, 4)):
+                tailops.append(tail_instr(rnd, b, bl))
     # code after the region: must behave as unguarded
     a = rnd.choice(pool[:4])
     o = b.operand("L", value=rnd.randrange(0, 3))
     r = b.emit(f"bin mul r{a} r{o}", "?")
     b.emit(f"call val r{r}", "I")
+    if tails and rnd.random() < 0.5:
+        tailops.append(tail_instr(rnd, b, bl))
     return Case(cid, cfg, b.ins, {"shape": "guarded", "op": "+".join(sorted(set(bodyops))), "kinds": gk,
                                   "gvals": gvals, "depth": depth, "malformed": bad_guard or bad_inner is not None,
-                                  "bad_inner": bad_inner})
+                                  "bad_inner": bad_inner, "tail": "+".join(sorted(set(tailops))) or None})
+
+
+def tail_instr(rnd, b, bl):
+    """one instruction (on fresh small operands, valid for the data) whose constraints or constants depend on the CURRENT guard triple"""
+    q = min(1 << (bl - 2), 6)
+    x = rnd.randrange(-q, q + 1)
+    k = rnd.choice(["assert_nonzero", "assert_nonzero", "assert_ne", "assert_ne", "assert_int", "arith_int", "cmp_int", "eq_int", "cmp",
+                    "rshift", "to_bits"])
+    mk = lambda v: b.emit(f"mk {rnd.choice(['priv', 'priv', 'pub'])} r{b.int_lit(v)}", "L")
+    if k == "assert_nonzero":
+        b.emit(f"call assert_nonzero r{mk(x or 1)}", "N")
+    elif k == "assert_ne":
+        y = x + rnd.choice([1, -1, 2, -3])
+        ry = b.int_lit(y) if rnd.random() < 0.5 else mk(y)
+        b.emit(f"call assert_ne r{mk(x)} r{ry}", "N")
+    elif k == "assert_int":
+        m, y = rnd.choice([("assert_lt", x + rnd.randrange(1, 3)), ("assert_le", x + rnd.randrange(0, 3)), ("assert_gt", x - rnd.randrange(1, 3)),
+                           ("assert_ge", x - rnd.randrange(0, 3)), ("assert_eq", x)])
+        b.emit(f"call {m} r{mk(x)} r{b.int_lit(y)}", "N")
+    elif k == "arith_int":
+        r = b.emit(f"bin {rnd.choice(['add', 'sub', 'mul'])} r{mk(x)} r{b.int_lit(rnd.randrange(-3, 4))}", "L")
+        b.emit(f"call {rnd.choice(['val', 'check_zero', 'check_positive'])} r{r}" if rnd.random() < 0.7 else f"bin mul r{r} r{r}", "?")
+    elif k in ("cmp_int", "eq_int"):
+        op = rnd.choice(["lt", "le", "gt", "ge"]) if k == "cmp_int" else rnd.choice(["eq", "ne"])
+        r = b.emit(f"bin {op} r{mk(x)} r{b.int_lit(x + rnd.randrange(-2, 3))}", "B")
+        if rnd.random() < 0.5:
+            b.emit(f"call val r{r}", "I")
+    elif k == "cmp":
+        b.emit(f"bin {rnd.choice(CMPS)} r{mk(x)} r{mk(x + rnd.randrange(-2, 3))}", "B")
+    elif k == "rshift":
+        b.emit(f"bin rshift r{mk(abs(x))} r{b.int_lit(rnd.randrange(0, 3))}", "L")
+    else:
+        b.emit(f"call to_bits r{mk(abs(x))}", "list")
+    return k
 
 
 def array_case(rnd, cid, p=BN128):
@@ -902,3 +957,205 @@ def ignore_toggle_case(rnd, cid, p=BN128):
     r = in_domain(); b.emit(f"call val r{r}", "I")
     return Case(cid, cfg, b.ins, {"shape": "ignore-toggle", "op": "+".join(used) or "none", "kinds": pattern, "malformed": must is not None,
                                   "must_raise": must})
+
+
+# ---------------------------------------------------------------- selections whose branches are FUNCTIONS
+def selection(b, rc, then_fn=None, else_fn=None, then_val=None, else_val=None):
+    """`if_then_else(rc, f, g)` through the library's own function (harness/worker.py Interp.selection): `then_fn` / `else_fn` emit the
+    body of a branch function and return the register it returns; a branch given as `*_val` is a plain value.  The instruction text is
+    `fthen c; <f>; fmid; un invert c; felse ~c; <g>; fleave; fsel c t e`, which the model reads as two guarded regions and a selection."""
+    rt, re_ = then_val, else_val
+    if then_fn is not None:
+        b.emit(f"fthen r{rc}", "N"); rt = then_fn(); b.emit("fmid", "N")
+    if else_fn is not None:
+        inv = b.emit(f"un invert r{rc}", "B"); b.emit(f"felse r{inv}", "N"); re_ = else_fn(); b.emit("fleave", "N")
+    return b.emit(f"fsel r{rc} r{rt} r{re_}", "?")
+
+
+THUNK_GADGETS = ["rshift", "rshift", "and", "or", "xor", "lt", "le", "ge", "gt", "eq", "ne", "to_bits_rt", "to_bits_bit", "floordiv", "mod",
+                 "mul", "add_int", "check_positive", "assert_cmp", "assert_nonzero", "assert_ne_int"]
+
+
+def thunk_gadget(rnd, b, x, y, vx, vy, bl, used, gadgets=None):
+    """one guard-sensitive operation on the secrets x, y (values 0 <= vx, 1 <= vy, both below 2^(bl-2)); returns a register holding a
+    FRESH secret value (never one of the operands themselves: the selection tests object identity)"""
+    g = rnd.choice(gadgets or THUNK_GADGETS); used.append(g)
+    if g == "rshift":
+        return b.emit(f"bin rshift r{x} r{b.int_lit(rnd.randrange(0, min(3, bl)))}", "L")       # a count >= bitlength gives the plain int 0
+    if g in ("and", "or", "xor", "lt", "le", "ge", "gt", "eq", "ne", "floordiv", "mod", "mul"):
+        a, c = (x, y) if g in ("floordiv", "mod") or rnd.random() < 0.7 else (y, x)
+        return b.emit(f"bin {g} r{a} r{c}", "B" if g in CMPS else "L")
+    if g == "to_bits_rt":
+        bits = b.emit(f"call to_bits r{x}", "list")
+        return b.emit(f"call from_bits r{bits}", "L")
+    if g == "to_bits_bit":
+        bits = b.emit(f"call to_bits r{x}", "list")
+        bit = b.emit(f"idx r{bits} {rnd.randrange(0, bl)}", "B")
+        return b.emit(f"bin add r{bit} r{y}", "L")
+    if g == "add_int":
+        return b.emit(f"bin {rnd.choice(['add', 'sub', 'mul'])} r{x} r{b.int_lit(rnd.randrange(1, 4))}", "L")
+    if g == "check_positive":
+        return b.emit(f"call check_positive r{b.emit(f'bin sub r{x} r{y}', 'L')}", "B")
+    if g == "assert_cmp":
+        m = "assert_lt" if vx < vy else "assert_ge"
+        b.emit(f"call {m} r{x} r{y if rnd.random() < 0.5 else b.int_lit(vy)}", "N")
+    elif g == "assert_nonzero":
+        b.emit(f"call assert_nonzero r{y}", "N")
+    else:
+        b.emit(f"call assert_ne r{y} r{b.int_lit(vy + rnd.choice([1, 2, -vy]))}", "N")
+    return b.emit(f"bin add r{x} r{y}", "L")
+
+
+def thunk_case(rnd, cid, p=BN128, bitlengths=None, gadgets=None, cond_values=(0, 1), nest=True):
+    """a selection whose branches are FUNCTIONS (`if_then_else(c, lambda: ..., lambda: ...)`; also only the then / only the else branch a
+    function, the other a value): the then function runs guarded by c, the else function by ~c.  Branch bodies hold guard-sensitive gadgets
+    (bit decompositions, shifts, bitwise operations and comparisons of secrets, divisions, assertions, constants) on operands valid for
+    the data; the body of the branch NOT taken may also see operands outside the bit length (dead code).  Bodies may contain a nested
+    region (guarded() or a nested selection) followed by further instructions of the enclosing body.  c is 0 and 1."""
+    cfg = cfg_for(rnd, p=p)
+    cfg["ign"] = 0
+    if bitlengths:
+        cfg["bl"] = rnd.choice(bitlengths); cfg["res"] = min(cfg["res"], 1)
+    elif cfg["bl"] < 4:
+        cfg["bl"] = rnd.choice([4, 8, 16])
+    bl = cfg["bl"]; q = 1 << max(bl - 2, 1)
+    b = Builder(rnd, cfg)
+    mk = lambda v: b.emit(f"mk {rnd.choice(['priv', 'priv', 'pub'])} r{b.int_lit(v)}", "L")
+    vx = rnd.randrange(0, q); vy = rnd.randrange(1, q)
+    x = mk(vx); y = mk(vy)
+    wide = mk(rnd.choice([1 << bl, (1 << bl) + rnd.randrange(1, 9), -rnd.randrange(1, q + 1)]))        # outside the domain of the bit gadgets
+    cv = rnd.choice(cond_values)
+    ck = rnd.choice(["B", "B", "B", "cmp"])
+    if ck == "B":
+        rc = b.emit(f"mk {rnd.choice(B_KINDS)} r{b.int_lit(cv)}", "B")
+    else:
+        op = rnd.choice(["lt", "ge", "eq", "ne"])
+        holds = {"lt": vx < vy, "ge": vx >= vy, "eq": vx == vy, "ne": vx != vy}[op]
+        rc = b.emit(f"bin {op} r{x} r{y}", "B"); cv = int(holds)
+    form = rnd.choice(["both", "both", "else-only", "else-only", "then-only"])
+    used = []
+
+    def body(live, depth=0):
+        def run():
+            r = None
+            for _ in range(rnd.randrange(1, 3)):
+                xx = wide if (not live and rnd.random() < 0.2) else x
+                r = thunk_gadget(rnd, b, xx, y, vx, vy, bl, used, gadgets)
+            if nest and depth == 0 and rnd.random() < 0.3:
+                # a nested region inside the branch function, then more code of the branch function
+                iv = rnd.choice([0, 1])
+                if rnd.random() < 0.5:
+                    g = b.emit(f"mk {rnd.choice(['priv', 'privb'])} r{b.int_lit(iv)}", "B")
+                    b.emit(f"genter r{g}", "N"); thunk_gadget(rnd, b, x, y, vx, vy, bl, used, gadgets); b.emit("gleave", "N")
+                    used.append("nested-guarded")
+                else:
+                    ic = b.emit(f"mk {rnd.choice(B_KINDS)} r{b.int_lit(iv)}", "B")
+                    r2 = selection(b, ic, body(live and iv == 1, 1), body(live and iv == 0, 1))
+                    used.append("nested-selection")
+                    if rnd.random() < 0.5:
+                        r = b.emit(f"bin add r{r} r{r2}", "L")
+                for _ in range(rnd.randrange(1, 3)):
+                    used.append("tail:" + tail_instr(rnd, b, bl))
+                if rnd.random() < 0.5:
+                    r = thunk_gadget(rnd, b, x, y, vx, vy, bl, used, gadgets)
+            return r
+        return run
+    tval = None if form != "else-only" else (b.int_lit(rnd.randrange(0, 9)) if rnd.random() < 0.5 else mk(rnd.randrange(0, q)))
+    fval = None if form != "then-only" else (b.int_lit(rnd.randrange(0, 9)) if rnd.random() < 0.5 else mk(rnd.randrange(0, q)))
+    rr = selection(b, rc, body(cv == 1) if tval is None else None, body(cv == 0) if fval is None else None, tval, fval)
+    target = rr
+    c = rnd.random()
+    if c < 0.4:
+        b.emit(f"call val r{rr}", "I")
+    elif c < 0.7:
+        follow_ups(rnd, b, rr)
+    return Case(cid, cfg, b.ins, {"shape": "thunk", "op": "+".join(sorted(set(used))), "kinds": f"{form}:c={cv}:{ck}", "gvals": [cv],
+                                  "malformed": False, "target": target, "cond": cv, "form": form})
+
+
+def caught_region_case(rnd, cid, p=BN128):
+    """an exception raised INSIDE a region (the branch function of a selection that is not taken / that is taken, the else function, a
+    guarded() function) and CAUGHT by the caller (`tbegin` .. `tend` = try/except Exception), followed by ordinary in-domain operations:
+    the classic `if_then_else(d != 0, lambda: n // d, 0)` with d == 0 (the division raises for a zero divisor also in dead code), a
+    boolean declaration of a non-boolean value, a false assertion in a live branch.  After the recovered error the run is an ordinary
+    run again: in-domain operations give Python's values, out-of-domain operations raise.  meta['must_raise'] as for ignore_toggle_case."""
+    cfg = cfg_for(rnd, p=p); cfg["ign"] = 0
+    if cfg["bl"] < 6:
+        cfg["bl"] = rnd.choice([8, 12, 16])
+    bl = cfg["bl"]; half = 1 << (bl - 1); full = 1 << bl
+    q = max(2, 1 << (bl // 2 - 1))
+    b = Builder(rnd, cfg)
+    mk = lambda v: b.emit(f"mk {rnd.choice(['priv', 'priv', 'pub'])} r{b.int_lit(v)}", "L")
+    vn = rnd.randrange(1, q); va = rnd.randrange(2, q); vc = rnd.randrange(1, q)
+    n = mk(vn); d = mk(0); a = mk(va); c = mk(vc); two = mk(2)
+    hi = mk(rnd.randrange(full, 2 * full)); lo = mk(-rnd.randrange(full, 2 * full))
+    how = rnd.choice(["zero-div", "zero-div", "zero-div", "non-boolean", "false-assertion", "inexact-div"])
+    where = rnd.choice(["then-not-taken", "then-not-taken", "else-not-taken", "then-taken", "else-taken", "guarded-dead", "guarded-live"])
+    if how in ("false-assertion", "inexact-div") and "taken" in where and "not" in where:
+        where = where.replace("not-taken", "taken")         # these raise in live code only
+    if how in ("false-assertion", "inexact-div") and where == "guarded-dead":
+        where = "guarded-live"
+    live = where in ("then-taken", "else-taken", "guarded-live")
+
+    def raising():
+        if how == "zero-div":
+            return b.emit(f"bin {rnd.choice(['floordiv', 'floordiv', 'mod', 'truediv'])} r{n} r{d}", "L")
+        if how == "non-boolean":
+            return b.emit(f"wrapb r{a}", "B")
+        if how == "inexact-div":
+            return b.emit(f"bin truediv r{mk(2 * vn + 1)} r{two}", "L")
+        b.emit(f"call {rnd.choice(['assert_lt', 'assert_eq'])} r{a} r{mk(-1)}", "N")
+        return b.emit(f"bin add r{a} r{c}", "L")
+
+    def fn():
+        if rnd.random() < 0.4:
+            b.emit(f"bin {rnd.choice(['add', 'mul', 'lt'])} r{a} r{c}", "?")
+        return raising()
+
+    def other():
+        return b.emit(f"bin add r{a} r{c}", "L")
+    b.emit("tbegin", "N")
+    if where.startswith("guarded"):
+        g = b.emit(f"mk {rnd.choice(['priv', 'privb'])} r{b.int_lit(1 if live else 0)}", "B")
+        b.emit(f"genter r{g}", "N"); fn(); b.emit("gleave", "N")
+    else:
+        then_side = where.startswith("then")
+        cvv = 1 if (then_side == live) else 0
+        if rnd.random() < 0.5 and how == "zero-div" and cvv == (0 if then_side else 1):
+            rc = b.emit(f"bin {'ne' if then_side else 'eq'} r{d} r{b.int_lit(0)}", "B")         # the condition IS the test of the divisor
+        else:
+            rc = b.emit(f"mk {rnd.choice(B_KINDS)} r{b.int_lit(cvv)}", "B")
+        plain = rnd.random() < 0.5
+        if then_side:
+            selection(b, rc, fn, None if plain else other, None, b.int_lit(0) if plain else None)
+        else:
+            selection(b, rc, None if plain else other, fn, b.int_lit(0) if plain else None, None)
+    b.emit("tend", "N")
+
+    def in_domain():
+        op = rnd.choice(["add", "mul", "sub", "lt", "gt", "ge", "le", "eq", "ne", "floordiv", "mod", "and", "rshift"])
+        x, y = rnd.choice([(a, c), (c, a), (a, two), (n, c)])
+        if op == "rshift":
+            y = b.int_lit(rnd.randrange(0, 3))
+        elif rnd.random() < 0.3 and op not in ("and",):
+            y = b.int_lit(rnd.randrange(1, q))
+        return b.emit(f"bin {op} r{x} r{y}", "B" if op in CMPS else "L")
+    used = []
+    for _ in range(rnd.randrange(1, 4)):
+        r = in_domain()
+        if rnd.random() < 0.4: b.emit(f"call val r{r}", "I")
+    must = None
+    if rnd.random() < 0.5:
+        k = rnd.choice(["cmp", "zero-div", "assert-false", "to_bits-wide", "assert_nonzero-zero"])
+        if k == "cmp":
+            op = rnd.choice(["lt", "le", "gt", "ge"]); xx, yy = (lo, hi) if op in ("lt", "le") else (hi, lo)
+            must = b.emit(f"bin {op} r{xx} r{yy}", "B")
+        elif k == "zero-div": must = b.emit(f"bin {rnd.choice(['floordiv', 'mod', 'truediv'])} r{a} r{d}", "?")
+        elif k == "assert-false":
+            m, xx, yy = rnd.choice([("assert_gt", lo, hi), ("assert_eq", lo, a), ("assert_lt", hi, a), ("assert_ne", a, a), ("assert_le", a, lo)])
+            must = b.emit(f"call {m} r{xx} r{yy}", "N")
+        elif k == "to_bits-wide": must = b.emit(f"call to_bits r{hi}", "?")
+        else: must = b.emit(f"call assert_nonzero r{d}", "N")
+        used.append("then:" + k)
+    r = in_domain(); b.emit(f"call val r{r}", "I")
+    return Case(cid, cfg, b.ins, {"shape": "caught-in-region", "op": how, "kinds": where, "malformed": must is not None, "must_raise": must})
